@@ -221,10 +221,43 @@ def native_remove_innovation_battery(seed=0):
                 problems.append(f"remove_innovation m=1, k=2: NIS {v*v} vs threshold {thr1}: expected {want}")
         except Exception as e:
             problems.append(f"remove_innovation m=1 raised {type(e).__name__}: {e}")
+    problems += ulp_boundary_grid(sc, seed)
     return problems, sc
 
 
-def native_sequence(seed=0, linear=False, k_edit=3.0, container="set", assumptions=False, scale=None):
+def ulp_boundary_grid(sc, seed=0):
+    """IEEE boundary: for a grid of (k, m) the bound b = fl(k*sqrt(2m) + m) is computed as the property writes it; with nu = e_1 and
+    S_inv = diag(x, 1, ..., 1) the NIS is exactly x.  NIS = b must be kept (strict >), NIS = nextafter(b, +inf) discarded,
+    NIS = nextafter(b, -inf) kept - whatever the rounding of b's own computation."""
+    import numpy as np
+
+    problems = []
+    one = scenarios.Scenario(2, 0, 1, [1], seed=seed)
+    for k_edit in (0.25, 0.5, 1.0, 1.5, 2.0, 3.0, 5.0, 0.1, 7.3):
+        try:
+            py, ekf = scenarios.build_ekf(one, config={"innovation_filtering": k_edit})
+        except Exception as e:
+            return [f"constructing the filter raised {type(e).__name__}: {e}"]
+        for m in (1, 2, 3, 4, 5, 6, 8):
+            b = k_edit * math.sqrt(2 * m) + m
+            nu = np.zeros((m, 1))
+            nu[0, 0] = 1.0
+            for x, want, label in ((b, False, "NIS exactly the bound"), (math.nextafter(b, math.inf), True, "NIS one ulp above the bound"), (math.nextafter(b, -math.inf), False, "NIS one ulp below the bound")):
+                sinv = np.eye(m)
+                sinv[0, 0] = x
+                try:
+                    got = bool(ekf.remove_innovation(nu, sinv))
+                except Exception as e:
+                    problems.append(f"remove_innovation (k={k_edit}, m={m}) raised {type(e).__name__}: {e}")
+                    break
+                if got != want:
+                    problems.append(f"remove_innovation k={k_edit}, m={m}, {label} ({x!r} vs {b!r}): returned {got}, the property's decision is {want}")
+            if len(problems) > 3:
+                return problems
+    return problems
+
+
+def native_sequence(seed=0, linear=False, k_edit=3.0, container="set", assumptions=False, scale=None, cse=None):
     """STATEFUL bounded check: one filter instance with two sensors of DIFFERENT reading dimension, driven through a sequence of
     Jacobian evaluations at different points (different dt), predictions (dt of the point, 0, another dt) and alternating
     sensor updates (near and far readings).  Every result is compared with the exact oracle at ITS OWN inputs, so state kept
@@ -236,7 +269,10 @@ def native_sequence(seed=0, linear=False, k_edit=3.0, container="set", assumptio
         # very precise sensors on a very small prior (values far below 1e-6): supplied noise must be used as supplied
         sc.sensor_noises = {kx: {r: v * scale for r, v in m.items()} for kx, m in sc.sensor_noises.items()}
     try:
-        py, ekf = scenarios.build_ekf(sc, config={"innovation_filtering": k_edit}, container=container)
+        cfg = {"innovation_filtering": k_edit}
+        if cse is not None:
+            cfg["common_subexpression_elimination"] = cse
+        py, ekf = scenarios.build_ekf(sc, config=cfg, container=container)
     except Exception as e:
         return [f"constructing the filter for a valid definition raised {type(e).__name__}: {(str(e).splitlines() or [''])[0]}"], sc
     n = sc.n
